@@ -65,10 +65,10 @@ ADDENDA = {
  'C14': 'Round 5: the configured latency is added at clock resolution; on_lookup touches nothing of the resolver after invoking the user\'s handler. Audit rounds: IP literals are queued in completion-time order; a host-name lookup starts at max(now, last completion). Audit batch 4: whatever empties the lookup queue also cancels the resolver\'s timer.',
  'C15': 'Round 5: no comparison uses a signed difference converted to unsigned without a dominating order guard. Round 7: find()\'s loop guard admits the last window; every cycle of normalize()\'s search loop advances the search origin.',
  'C16': 'Round 5: the keep-alive decision reads only per-request or construction-time state; header keys are lower-case as stored; re-arming the accept re-examines the accept queue. Audit rounds: 0 <= start <= end <= size at the generator call (reaching definitions over min/max/clamp shapes); abandoned connects and a vanished peer cannot wedge the accept loop. Round 7: the numeric conversions in the registered handlers throw types the handler\'s catch clauses accept.',
- 'C17': 'Round 5: close_connection() closes every TCP member; closures handed to asynchronous operations own their payload; every non-error path of on_read_udp re-arms the receive. Audit rounds: no read of a computed length is issued for zero bytes; address family casts are guarded; the relay buffer holds a whole datagram; the association ends with its TCP connection. Round 7: a negotiation step entered directly with (error_code(), n) does not take its failure exit for those arguments. Audit batch 4: every TCP completion of a connection closes it on its error edge.',
+ 'C17': 'Round 5: close_connection() closes every TCP member; closures handed to asynchronous operations own their payload; every non-error path of on_read_udp re-arms the receive. Audit rounds: no read of a computed length is issued for zero bytes; address family casts are guarded; the relay buffer holds a whole datagram; the association ends with its TCP connection. Round 7: a negotiation step entered directly with (error_code(), n) does not take its failure exit for those arguments. Audit batch 4: every TCP completion of a connection closes it on its error edge. Round 8: protocol octets read from plain-char buffers are masked or converted to unsigned char before they are combined into ports and addresses; whose datagram it is is decided after the client\'s port has been learned.',
  'C18': 'Round 5: at most one origin connection attempt per client connection (latch falsified synchronously by the initiation); header keys lower-case. Audit rounds: completions aborted by close_connection() are inert; no write to the origin socket while its connect is outstanding; a read into the remaining buffer needs room; a request naming another origin is never appended to the pipeline. Round 7: the full-buffer refusal is tested only after every complete request has been extracted. Audit batch 4: while an accept is outstanding no completion has any effect (stale completions of the previous client); an error writing to the origin ends the upload, not the relay of the answer.',
  'C19': 'Round 5: every locally built segment has packet::from set before send_packet. Audit rounds: address casts in the record writers are guarded by a family test; only handshake-level resets bypass send_packet. Audit batch 3: log_pcap() finishes the running capture before the new one opens its file.',
- 'C20': 'Round 5: the accepted side looks the path MTU up for the connector\'s address (channel orientation). Round 7: the path MTU is looked up for the bound address (after the implicit bind). Audit batch 4: the don\'t-fragment flag is cleared by close() and in a moved-from socket; every IP_PMTUDISC value that means DF sets it.',
+ 'C20': 'Round 5: the accepted side looks the path MTU up for the connector\'s address (channel orientation). Round 7: the path MTU is looked up for the bound address (after the implicit bind). Audit batch 4: the don\'t-fragment flag is cleared by close() and in a moved-from socket; every IP_PMTUDISC value that means DF sets it. (set_option is interpreted for DONT / DO / PROBE; the flag it leaves is compared with the expected one.)',
  'C06': 'Audit rounds: a dropped segment\'s resend needs a trigger of its own (known finding); a peer that hangs up fails the parked writer. Round 7: every arriving segment is acknowledged before it is parked or queued; next_packet_sent() decides about the next departure from the queue as it is after the hand-over.',
  'C10': 'Audit rounds: a hop builds no packet of its own except the refusal a detached forwarder answers a SYN with. Audit batch 3: nothing of the queue is touched after forward_packet() without a liveness test.',
 }
